@@ -18,7 +18,7 @@ RULE = (
     "individual's own terms (B) / the permutation was not the identity (D)"
 )
 REQUIRED = {"rel_B_terms": 60, "rel_B_sampler": 60, "rel_B_personalize": 40, "rel_C_terms": 40, "rel_D_terms": 40, "totals": 40, "rel_E": 2,
-            "others_terms_really_changed": 30}
+            "others_terms_really_changed": 30, "cohorts_with_unsorted_ids": 8}
 ASSUMPTIONS = [
     "B relations: bit-identity (two executions of the same code on the same shapes); C/D: 1e-6 relative + 1e-6 x largest per-individual term "
     "absolute (float32 accumulation order may differ with layout; a term near 0 is a cancelling sum of O(10) summands)",
@@ -63,7 +63,10 @@ def run_shard(spec, ctx):
         events = kind == "joint"
         binary = noise == "bernoulli"
         try:
-            df = gen.cohort(rng, n_ind=int(rng.integers(3, 12)), n_feat=dim, missing="mcar", events=events, one_visit_ok=not events, binary=binary)
+            df = gen.cohort(rng, n_ind=int(rng.integers(3, 12)), n_feat=dim, missing="mcar", events=events, one_visit_ok=not events, binary=binary,
+                            id_style="str" if (events or i % 2) else "shuffled")
+            if not events and i % 2 == 0:
+                ctx.count("cohorts_with_unsorted_ids")
             ds = gen.to_dataset(df, events=events)
             kw = {"n_clusters": 2} if kind == "mixture_logistic" else {}
             model = gen.make_model(kind, dim, src, noise, **kw) if noise else gen.make_model(kind, dim, src, **kw)
